@@ -93,9 +93,15 @@ class one3d(PseudoNetCDFFile):
         self.rffile = rf
 
         self.__memmap = memmap(self.rffile, '>f', 'r', offset=0)
-        if rows is None and cols is None:
-            rows = 1
-            cols = self.__memmap[[-1]].view('>i')[0] // 4 - 2
+        if rows is None or cols is None:
+            cells = self.__memmap[[-1]].view('>i')[0] // 4 - 2
+            if rows is None and cols is None:
+                rows = 1
+                cols = cells
+            elif rows is None:
+                rows = cells // cols
+            else:
+                cols = cells // rows
         self.__record_items = rows * cols + 4
 
         self.__records = self.__memmap.shape[0] // self.__record_items
